@@ -41,6 +41,7 @@ let parse_op (t : string) =
   | 'F' -> (c, OFind (z_of_string rest))
   | 'G' -> (c, OFindRec (z_of_string rest))
   | 'R' -> (c, ORemove (z_of_string rest))
+  | 'X' -> (c, ORemove (z_of_string rest))   (* remove called with the key object and the out-parameter aliased *)
   | 'E' -> (c, OErase (z_of_string rest))
   | 'Z' -> (c, OSize)
   | 'T' -> (c, OIter)
